@@ -763,7 +763,7 @@ class Interp:
             a = self.operand(env, rv[2])
             if rv[1] in ("IntToFloat",) and isinstance(a, int):
                 return float(a)
-            if rv[1] in ("FloatToFloat", "IntToInt", "Transmute", "PtrToPtr") or rv[1].startswith("PointerCoercion"):
+            if rv[1] in ("FloatToFloat", "IntToInt", "Transmute", "PtrToPtr", "Subtype") or rv[1].startswith("PointerCoercion"):
                 return a
             if rv[1] == "FloatToInt" and isinstance(a, float) and a == a and abs(a) != math.inf:
                 return int(a)
@@ -1281,6 +1281,10 @@ def std_oracle(interp, env, f, args, t, bb, path):
             return a0
         if name in ("map", "and_then") and not isok:
             return a0
+        if name == "and" and len(args) == 2:
+            return deref(args[1]) if isok else a0
+        if name == "or" and len(args) == 2:
+            return a0 if isok else deref(args[1])
     if sa == "core::option::Option" and isinstance(a0, Agg) and a0.name == "core::option::Option":
         issome = a0.variant == "Some"
         inner = a0.fields[0] if a0.fields else TOP
@@ -1298,6 +1302,10 @@ def std_oracle(interp, env, f, args, t, bb, path):
             return NONE
         if name in ("or", "or_else") and issome:
             return a0
+        if name == "and" and len(args) == 2:
+            return deref(args[1]) if issome else NONE
+        if name == "or" and len(args) == 2 and not issome:
+            return deref(args[1])
     if key in ("core::cmp::PartialOrd::partial_cmp",) and len(args) == 2:
         a, b = deref(a0), deref(args[1])
         if isinstance(a, (int, float)) and not isinstance(a, bool) and isinstance(b, (int, float)) and not isinstance(b, bool):
